@@ -188,6 +188,7 @@ def gen_c05(r, knobs=None):
                 b.op(op='armrun', slug=victim.slug, kind=kind, at=r.choice([0, 1, 3]))
                 b.req(cid, name)
                 b.op(op='insp', cid=cid, kind='has_data')
+                b.op(op='ls', store='main', expect='error_dirs')
                 b.req(cid, name)         # retry in the same process: must recover
                 b.op(op='disarm')
             elif fault_kind == 'crash':
